@@ -596,6 +596,8 @@ func runC18(c *Ctx) {
 		c18CGCase(c, "cg-report", p, ro, tags...)
 		c18NoNL = false
 	}
+
+	c18HTMLCases(c)
 }
 
 // three functions; main calls f and g; with "addresses" granularity the nodes sit at the given addresses
